@@ -449,3 +449,33 @@ FORTRESS_TEMPLATES = [
     "8/8/8/8/8/1pk5/1r6/3Q2K1 w - - 0 1", "8/6pk/6r1/8/8/8/3Q4/6K1 w - - 0 1", "6k1/5pp1/6r1/8/8/8/3Q4/6K1 b - - 0 1",
     "8/8/8/8/8/k7/p7/K1Q5 w - - 0 1", "8/8/8/8/8/2k5/2p5/K3Q3 w - - 0 1", "7k/7P/7K/8/8/8/8/3B4 w - - 0 1", "k7/P7/K7/8/8/8/8/3B4 w - - 0 1",
 ]
+
+
+def castling_middlegames(rng, n):
+    """Opening-like positions in which both kings can still castle at once (paths clear, pieces developed): the kind of position in which
+    the OPPONENT's castling move appears inside a principal variation."""
+    out = []
+    while len(out) < n:
+        board = {sq(4, 0): "K", sq(4, 7): "k", sq(0, 0): "R", sq(7, 0): "R", sq(0, 7): "r", sq(7, 7): "r"}
+        for f in range(8):
+            r = rng.choice([1, 1, 1, 2, 2, 3])
+            board[sq(f, r)] = "P"
+            r2 = rng.choice([6, 6, 6, 5, 5, 4])
+            if r2 > r:
+                board[sq(f, r2)] = "p"
+        spots_w = [sq(f, r) for f in range(8) for r in (1, 2, 3) if sq(f, r) not in board]
+        spots_b = [sq(f, r) for f in range(8) for r in (4, 5, 6) if sq(f, r) not in board]
+        rng.shuffle(spots_w)
+        rng.shuffle(spots_b)
+        for pcs, spots, low in (("NNBBQ", spots_w, False), ("nnbbq", spots_b, True)):
+            for pc in pcs:
+                if rng.random() < 0.8 and spots:
+                    board[spots.pop()] = pc
+        # sometimes one wing is still blocked
+        if rng.random() < 0.3:
+            board.setdefault(sq(rng.choice([1, 2, 3, 5, 6]), 0), rng.choice("NB"))
+        if rng.random() < 0.3:
+            board.setdefault(sq(rng.choice([1, 2, 3, 5, 6]), 7), rng.choice("nb"))
+        rights = "".join(c for c in "KQkq" if rng.random() < 0.9)
+        out.append(board_to_fen(board, rng.choice("wb"), rights, None, 0, rng.choice([8, 12, 20])))
+    return out
